@@ -403,7 +403,23 @@ func badScalarFor(r *rng, d rscp.DataType) *jn {
 	case rscp.Timestamp:
 		return []*jn{jstr("yesterday"), jnum("0"), jstr("2024-13-01T00:00:00Z")}[r.intn(3)]
 	case rscp.ByteArray:
-		return []*jn{jarr(jnum("256")), jarr(jnum("-1")), jarr(jnum("1.5")), jstr("AQI="), jarr(jstr("1"))}[r.intn(5)]
+		// one inadmissible element at any position among admissible ones (an element that is skipped or defaulted would
+		// silently change the bytes sent)
+		bad := []*jn{jnum("256"), jnum("-1"), jnum("1.5"), jstr("1"), jnull(), jbool(true), jarr(jnum("1")), jnum("1e3")}[r.intn(8)]
+		n := r.intn(5)
+		pos := r.intn(n + 1)
+		var el []*jn
+		for i := 0; i <= n; i++ {
+			if i == pos {
+				el = append(el, bad)
+			} else {
+				el = append(el, jnum(fmt.Sprint(r.intn(256))))
+			}
+		}
+		if r.intn(6) == 0 {
+			return jstr("AQI=")
+		}
+		return jarr(el...)
 	case rscp.Container:
 		return []*jn{jnum("1"), jstr("x"), jobj(jstr("EMS_REQ_POWER_PV"), nil, nil)}[r.intn(3)]
 	}
